@@ -119,3 +119,29 @@ func VerifH_C03_two_mergers() {
 	symAssert(ks[1] && ks[2], "nothing-disappears-permanently")
 	symReach("end")
 }
+
+// H03 (listing): an opener sees every current version also when the store
+// answers the listing in several pages.
+func VerifH_C03_paged_list() {
+	bkt := vNewBucket()
+	nv := 3
+	for v := 0; v < nv; v++ {
+		w := vMustOpen(vForkInto(bkt, v), vTableOpts{bf: 2}, int64(10+v))
+		if err := vIns(w, int64(100+v), int64(v+1), int64(v), nil); err != nil {
+			panic(err)
+		}
+		if err := w.Commit(vCtx); err != nil {
+			panic(err)
+		}
+	}
+	vMergeForks(bkt)
+	bkt.pageSize = symChoice("page-size", 3) // 0 = one page, 1, 2
+	writable := symChoice("writable", 2) == 1
+	r, err := vOpen(bkt.client(1), vTableOpts{bf: 2, readOnly: !writable}, 50)
+	symAssert(err == nil, "open-ok")
+	rows, err := vScan(r)
+	symAssert(err == nil, "scan-ok")
+	ks := vKeysOf(rows)
+	symAssert(ks[1] && ks[2] && ks[3], "every-listed-version-is-merged-whatever-the-page-size")
+	symReach("end")
+}
